@@ -49,7 +49,7 @@ func (o Op) String() string {
 }
 
 // OpKinds lists the call kinds.
-var OpKinds = []string{"decode", "decodeopts", "chained", "chainedopts", "decodelogger", "integrity", "headerfileid", "decodefault", "encode", "encodebad", "encodefw"}
+var OpKinds = []string{"decode", "decodeopts", "chained", "chainedopts", "decodelogger", "integrity", "header", "headerfileid", "decodefault", "encode", "encodebad", "encodefw"}
 
 // faultAts are the byte counts after which the reader of a "decodefault"
 // call fails with an error of its own (inside the header after the size
@@ -149,6 +149,9 @@ func Run(p *Pool, op Op, files map[int]*fit.File) (res string) {
 		return res
 	case "integrity":
 		return "err=" + errText(fit.CheckIntegrity(bytes.NewReader(p.Bytes[op.Idx]), false)) + " hdr=" + errText(fit.CheckIntegrity(bytes.NewReader(p.Bytes[op.Idx]), true))
+	case "header":
+		h, err := fit.DecodeHeader(bytes.NewReader(p.Bytes[op.Idx]))
+		return fmt.Sprintf("err=%s hdr=%v size=%d proto=%d profile=%d data=%d type=%q crc=%d", errText(err), h, h.Size, h.ProtocolVersion, h.ProfileVersion, h.DataSize, string(h.DataType[:]), h.CRC)
 	case "headerfileid":
 		h, id, err := fit.DecodeHeaderAndFileID(bytes.NewReader(p.Bytes[op.Idx]))
 		return fmt.Sprintf("err=%s hdr=%v id=%v", errText(err), h, prof.MsgVals(reflect.ValueOf(id)))
@@ -273,6 +276,41 @@ func BuildPool(seed int) *Pool {
 			bad[len(bad)-1] ^= 0x5A
 			p.Bytes = append(p.Bytes, bad)
 			p.Names = append(p.Names, "wrong file CRC")
+		}
+		// twins: a definition that the profile rules out for a known message
+		// (a one-byte field declared as uint32), and the same definition for
+		// unknown messages whose numbers differ from it by 256 and by 0xFF00
+		// (accepted: nothing is known about them). Whatever a process
+		// remembers about definitions must not carry from one to the other.
+		tab := prof.Table()
+		for _, m := range []uint16{20, 18, 34, 21, 0} {
+			mi := tab.Msgs[m]
+			if mi == nil {
+				continue
+			}
+			var fd *fitmodel.FieldDef
+			for _, n := range prof.FieldNums(m) {
+				fi := mi.Fields[n]
+				if bt := fitmodel.MustBase(fi.Base); bt.Size == 1 && !fi.Array && !bt.String && !(m == 0 && n == 0) {
+					fd = &fitmodel.FieldDef{Num: n, Size: 4, Base: 0x86}
+					break
+				}
+			}
+			if fd == nil {
+				continue
+			}
+			for _, g := range []uint16{m + 256, m + 0xFF00, m} {
+				if g != m && tab.Msgs[g] != nil {
+					continue
+				}
+				s := &fitmodel.Stream{HeaderSize: 12, Proto: 0x20, Recs: []fitmodel.Rec{
+					{IsDef: true, Global: 0, Fields: []fitmodel.FieldDef{{Num: 0, Size: 1, Base: 0}}}, {Raw: []byte{4}},
+					{IsDef: true, Local: 1, Global: g, Fields: []fitmodel.FieldDef{*fd}},
+					{Local: 1, Raw: []byte{150, 0, 0, 0}},
+				}}
+				p.Bytes = append(p.Bytes, s.Bytes())
+				p.Names = append(p.Names, fmt.Sprintf("twin definition: message %d field %d declared uint32", g, fd.Num))
+			}
 		}
 		// streams with component accumulation (history-sensitive state)
 		for i := 0; i < 4; i++ {
